@@ -222,8 +222,10 @@ func installOn[E boltz.Entity](name string, st *boltz.BaseStore[E], rec *Recorde
 		}, et.t)
 		st.AddEntityEventListener(&ifaceListener[E]{store: name, typ: et.name, rec: rec}, et.t)
 	}
-	// one registration call naming all three change types (the callback cannot tell which one fired: Type "?")
-	all := []boltz.EntityEventType{boltz.EntityCreated, boltz.EntityUpdated, boltz.EntityDeleted}
+	// one registration call naming all three change types (the callback cannot tell which one fired: Type "?").
+	// The extra types are handed over as a slice with spare capacity that is used for every registration, the way a
+	// caller keeps one "all changes" slice around.
+	all := append(make([]boltz.EntityEventType, 0, 8), boltz.EntityCreated, boltz.EntityUpdated, boltz.EntityDeleted)
 	st.AddListener(func(e boltz.Entity) {
 		rec.Add(Event{Store: name, Style: "listener-multi", Type: "?", ID: safeID(e), Info: entInfo(e)})
 	}, all[0], all[1:]...)
@@ -247,11 +249,19 @@ var MultiStyles = []string{"listener-multi", "id-listener-multi", "event-listene
 // InstallRecorders registers a listener of every style for every change type on every store of the world,
 // plus a tx-complete listener on the database.
 func (w *World) InstallRecorders(rec *Recorder, veto *Veto) {
+	w.InstallRecordersOn(rec, veto, true)
+}
+
+// InstallRecordersOn is InstallRecorders; with kids=false the child stores get no listener or constraint at all
+// (an application often hangs its rules on the parent store only).
+func (w *World) InstallRecordersOn(rec *Recorder, veto *Veto, kids bool) {
 	for name, st := range w.Stores {
 		installOn(name, st, rec, veto)
 	}
 	for name, ks := range w.Kids {
-		installOn(name, ks, rec, veto)
+		if kids {
+			installOn(name, ks, rec, veto)
+		}
 	}
 	w.Z.Db.AddTxCompleteListener(func(ctx boltz.MutateContext) {
 		rec.Add(Event{Type: "tx-complete", Style: "db"})
